@@ -46,7 +46,7 @@ BOUNDS = {
     "thorough": "all 3-definition managers, both builds, abs/round builtins and computed keys in definitions",
 }
 OUTSIDE = "more than 4 tasks or 2 arguments; division by zero (excluded by the property)"
-REQUIRED_CLASSES = ["programs", "two_arguments", "text_checked"]
+REQUIRED_CLASSES = ["programs", "two_arguments", "text_checked", "regenerated_after_redefinition"]
 PROFILE_CASES = 4
 TASKS_PER_CHILD = 50
 LOCS = ["a", "b", "c", "n.x", "l0"]
@@ -83,6 +83,23 @@ def run_case(ex, case):
     args = case["args"]
     if any(a not in free for a in args):
         return
+    if not generate_and_compare(ex, case, st, tw, args, ""):
+        return
+    red = case.get("redefine")
+    if red:
+        # a setter was generated before; one definition is replaced by another route than plain
+        # assignment (load / unregister + assign / register), then a setter is generated again
+        t, dsc = red["target"], c01._tup(red["dsc"])
+        ops = {"load": [("load", t, dsc, True)], "unreg_assign": [("unreg", t), ("expr", t, dsc)],
+               "unreg_register": [("unreg", t), ("register", t, dsc)], "assign": [("expr", t, dsc)]}[red["how"]]
+        for w in (st, tw):
+            for op in ops:
+                w.apply(op)
+        note(ex, "regenerated_after_redefinition")
+        generate_and_compare(ex, case, st, tw, args, f" (second setter, after {t} was redefined by {red['how']})", suffix="2")
+
+
+def generate_and_compare(ex, case, st, tw, args, tag, suffix=""):
     names = [f"x{i}" for i in range(len(args))]
     kw = {nm: U.getref(st.r, L) for nm, L in zip(names, args)}
     det = {"definitions": {k: U.show(v) for k, v in st.defs.items()}, "arguments": list(args)}
@@ -92,14 +109,14 @@ def run_case(ex, case):
     except (Abort, Inconclusive):
         raise
     except Exception as e:
-        ex.fail(f"gen_fun/mk_fun raised {type(e).__name__}: {e}", det)
-        return
+        ex.fail(f"gen_fun/mk_fun raised {type(e).__name__}: {e}{tag}", det)
+        return False
     det["source"] = src
     note(ex, "programs")
     if len(args) == 2:
         note(ex, "two_arguments")
     mkv = ex.real if case.get("real_args") else ex.int
-    vals = [mkv(f"arg{i}") for i in range(len(args))]
+    vals = [mkv(f"arg{suffix}{i}") for i in range(len(args))]
     def _out(fn):
         try:
             fn()
@@ -115,14 +132,14 @@ def run_case(ex, case):
     o1 = _out(lambda: f(*vals))
     o2 = _out(_assign_all)
     if o1 != o2:
-        ex.fail(f"the generated function gives {o1 or 'a result'} where assignment through the manager gives {o2 or 'a result'}", det)
-        return
+        ex.fail(f"the generated function gives {o1 or 'a result'} where assignment through the manager gives {o2 or 'a result'}{tag}", det)
+        return False
     if o1 is not None:
-        return
+        return False
     for M in U.ALL_LOCS:
         if not ex.prove(eq(U.getval(st.d, M), U.getval(tw.d, M)),
-                        f"after the generated function, location {M} differs from assignment through the manager", det):
-            return
+                        f"after the generated function, location {M} differs from assignment through the manager{tag}", det):
+            return False
     # the text: argument assignments, then the downstream tasks once each in dependency order
     lines = [ln.strip() for ln in src.split("\n")[1:]]
     head, body = lines[:len(args)], lines[len(args):]
@@ -142,20 +159,21 @@ def run_case(ex, case):
             todo.extend(edges[i])
     listed = [ln.split(" = ", 1)[0] for ln in body]
     if sorted(listed) != sorted(reach):
-        ex.fail(f"mk_fun lists tasks {listed}, the tasks downstream of the arguments are {sorted(reach)}", det)
-        return
+        ex.fail(f"mk_fun lists tasks {listed}, the tasks downstream of the arguments are {sorted(reach)}{tag}", det)
+        return False
     pos = {t: k for k, t in enumerate(listed)}
     for i in reach:
         for j in edges[i] & reach:
             if pos[i] > pos[j]:
-                ex.fail(f"mk_fun lists {j} before {i}, which produces one of its inputs", det)
-                return
+                ex.fail(f"mk_fun lists {j} before {i}, which produces one of its inputs{tag}", det)
+                return False
     for nm, L, ln in zip(names, args, head):
         if ln != f"{U.getref(st.r, L)} = {nm}":
             ex.fail(f"mk_fun argument line {ln!r} does not assign {nm} to {L}", det)
-            return
+            return False
     if len(ex.samples) < 2:
         ex.samples.append({"source": src})
+    return True
 
 
 def cases(tier):
@@ -182,6 +200,20 @@ def cases(tier):
                 if k == 3 and n % (1500 if tier == "quick" else 60):
                     continue
                 mans.append([list(c) for c in combo])
+        # a second setter generated after one definition was replaced
+        nred = 0
+        for defs in mans:
+            free = [L for L in LOCS if L not in {t for t, _ in defs}]
+            if not free or len(defs) < 2:
+                continue
+            nred += 1
+            if len(defs) < 4 and nred % (9 if tier == "quick" else 3):
+                continue
+            for ti in range(len(defs)):
+                t = defs[ti][0]
+                for how in ("load", "unreg_assign", "unreg_register", "assign"):
+                    out.append({"build": b, "defs": defs, "args": [free[0]],
+                                "redefine": {"target": t, "dsc": ["sub", ["loc", free[0]], ["const", 3]], "how": how}})
         for defs in mans:
             free = [L for L in LOCS if L not in {t for t, _ in defs}]
             for a in free:
